@@ -236,6 +236,7 @@ func c16(c *Ctx) {
 	c09EntryCountBounded(c, "C16.9/entry-count-bounded")
 	c16PeerMessages(c, "C16.12/peer-messages-nil-checked")
 	c16ReadLoopsEnd(c, "C16.13/read-loops-end-with-the-input")
+	c16InnerNodeNotEmpty(c, "C16.15/decoded-inner-node-is-not-empty")
 	c16NoNilNil(c, "C16.14/no-nil-result-without-error", []string{"embedded/appendable/singleapp", "embedded/appendable/multiapp", "embedded/appendable/remoteapp", "embedded/appendable/fileutils", "embedded/appendable", "embedded/store", "embedded/tbtree", "embedded/ahtree", "embedded/htree", "embedded/cache", "embedded/multierr", "embedded/watchers"})
 }
 
@@ -1049,4 +1050,60 @@ func nilOnSamePath(a, b ssa.Value, at *ssa.BasicBlock, depth int) bool {
 		}
 	}
 	return false
+}
+
+// c16InnerNodeNotEmpty: every method of an inner node of the index tree addresses nodes[0] / nodes[indexOf(key)] without
+// looking at len(nodes): "an inner node has at least one child" is an invariant of the tree, established by whoever
+// builds the node. The writer never produces an empty inner node; the reader of the nodes log has to refuse one
+// (a zeroed region of the file decodes as node type 0 = inner, 0 children).
+func c16InnerNodeNotEmpty(c *Ctx, r string) {
+	n := 0
+	for _, f := range c.allFns {
+		if !fnInPkgs(f, []string{"embedded/tbtree"}) || len(f.Blocks) == 0 {
+			continue
+		}
+		var count ssa.Value
+		allInstrs(f, false, func(in ssa.Instruction) {
+			st, ok := in.(*ssa.Store)
+			if !ok {
+				return
+			}
+			if fl, _ := fieldOf(st.Addr); fl != "innerNode.nodes" {
+				return
+			}
+			ms, ok := st.Val.(*ssa.MakeSlice)
+			if !ok {
+				return
+			}
+			dependsOn(ms.Len, func(v ssa.Value) bool {
+				if ex, ok := v.(*ssa.Extract); ok {
+					if cl, ok := ex.Tuple.(*ssa.Call); ok && strings.Contains(calleeName(&cl.Call), "appendable.(*Reader).Read") {
+						count = ex
+						return true
+					}
+				}
+				return false
+			})
+		})
+		if count == nil {
+			continue
+		}
+		n++
+		cd := desc(count)
+		nonZero := anyEdge(
+			whenCond(false, func(a string) bool { return strings.Contains(a, cd) && strings.Contains(a, " == ") && strings.Contains(a, "const:0") }),
+			whenCond(true, func(a string) bool { return strings.HasPrefix(a, "(const:0 < ") && strings.Contains(a, cd) }),
+			whenCond(false, func(a string) bool { return strings.Contains(a, cd) && strings.HasSuffix(a, " < const:1)") }),
+		)
+		q := &pathQ{fn: f, fromEntry: true, to: successReturn, barrier: nonZero}
+		construct := fnName(f) + ":decoded-child-count-is-not-zero"
+		if w := q.bypass(); w != nil {
+			c.fail(r, construct, c.pos(f.Pos()), "an inner node is built from the child count read from the nodes log ("+cd+") without refusing 0: the node's methods address nodes[0], a zeroed region of the file makes the next lookup panic with index out of range")
+		} else {
+			c.ok(r, construct, c.pos(f.Pos()), "a child count of 0 never reaches a successful return")
+		}
+	}
+	if n == 0 {
+		c.undecided(r, "floor", "the decoder of inner nodes was not found")
+	}
 }
